@@ -6,7 +6,7 @@ CONSTANTS
   Bases = {"One", "Mid", "MaxM1", "Max"}
   Tags = {0, 1, 2, 3}
   Ads = {0, 1}
-  Muts = {"ad", "flip", "foreign"}
+  Muts = {"ad", "flip", "foreign", "shortbuf"}
 INVARIANTS TypeOK CounterNeverZero Lockstep InOrderAccepted PrefixAuth TagDelivered
 PROPERTIES RekeyResetsCounter RejectIsStutter WrapRekeys Independent AcceptOnlyNext
 CHECK_DEADLOCK FALSE
